@@ -38,6 +38,9 @@ func verifPoint(point, id string) {
 // VerifOutboundIdle reports whether no client has a queued or in-progress outbound publish.
 func (s *Server) VerifOutboundIdle() bool {
 	for _, cl := range s.Clients.GetAll() {
+		if cl.Closed() {
+			continue // what is still queued for a connection that has ended will never be written
+		}
 		if len(cl.State.outbound) != 0 || atomic.LoadInt32(&cl.State.outboundQty) != 0 {
 			return false
 		}
